@@ -32,6 +32,7 @@ def ty_value(c, t):
     if t == 'i': return c.tyint()
     if t == 'e': return c.ty('TEnum', mkstr(ENUM[0]))
     if t == 's': return c.ty('TString')
+    if t == 'p': return c.ty('TStruct', mkstr('P'))
     return c.tytuple([ty_value(c, x) for x in t[1]])
 
 class Gen:
@@ -57,13 +58,18 @@ class Gen:
 
 class EnumVal:
     def __init__(s, tag, payload, payload1=None): s.tag, s.payload = tag, payload; s.payloads = [payload, payload1]
+STRUCT = ('P', [('x', 'i'), ('y', 'b')])      # struct P { x: int32, y: bool }
+class StructVal(EnumVal):
+    def __init__(s, *fields): s.tag = None; s.payloads = list(fields); s.payload = fields[0]
 def sym_scrutinee(t, path='s'):
     if t == 'b': return z3.Bool(path)
     if t == 'i': return z3.Int(path)
     if t == 's': return z3.Int(path + '_str')          # string identity: 0,1,2 = "a","b","c"; 3 = any other string
     if t == 'e': return EnumVal(z3.Int(path + '_tag'), z3.Int(path + '_p'), z3.Int(path + '_q'))
+    if t == 'p': return StructVal(z3.Int(path + '_x'), z3.Bool(path + '_y'))
     return [sym_scrutinee(x, '%s_%d' % (path, i)) for i, x in enumerate(t[1])]
 def scrut_vars(v):
+    if isinstance(v, StructVal): return list(v.payloads)
     if isinstance(v, EnumVal): return [v.tag, v.payload, v.payloads[1]]
     return [v] if not isinstance(v, list) else [y for x in v for y in scrut_vars(x)]
 
@@ -99,7 +105,7 @@ class Eval:
             return ('ctor', con.fields[0].fields[2])
         if n == 'EConstrGet':
             v = s.ev(f['expr'], env)
-            if not isinstance(v, EnumVal): raise Unsupported('core evaluator: EConstrGet on a non-enum value')
+            if not isinstance(v, EnumVal): raise Unsupported('core evaluator: EConstrGet on a non-enum / non-struct value')
             return v.payloads[f['field_index']]
         if n == 'ECall':
             fn = f['func']; fn = unbox(fn) if isinstance(fn, Agg) and fn.ty == 'Box' else fn
@@ -147,10 +153,11 @@ def ob_match(r, tier, seed, sty, rows, depth, bind_row=None, flat=False, force0=
     nl = rows * 4
     uses_enum = 'e' in json.dumps(sty)
     sv = sym_scrutinee(sty); flat_t = []
-    def leaf_types(t): return [t] if t in ('b', 'i', 's') else [y for x in t[1] for y in leaf_types(x)]
+    def leaf_types(t): return [t] if t in ('b', 'i', 's', 'p', 'e') else [y for x in t[1] for y in leaf_types(x)]
     lits_b = [z3.Bool('lb%d' % i) for i in range(nl)]; lits_i = [z3.Int('li%d' % i) for i in range(nl)]
     assumptions = [z3.And(x >= -2**31, x < 2**31) for x in lits_i + [v for v in scrut_vars(sv) if z3.is_int(v)]]
     def enum_tags(v):
+        if isinstance(v, StructVal): return []
         if isinstance(v, EnumVal): return [v.tag]
         return [y for x in v for y in enum_tags(x)] if isinstance(v, list) else []
     assumptions += [z3.And(t_ >= 0, t_ < len(ENUM[1])) for t_ in enum_tags(sv)]
@@ -175,6 +182,7 @@ def ob_match(r, tier, seed, sty, rows, depth, bind_row=None, flat=False, force0=
             if flat: opts = ['wild', 'lit'] if t in ('b', 'i') else ['tuple']
             if t == 's': opts = ['wild', 'sa', 'sb', 'sc'] + ([] if flat else ['var'])
             if t == 'e': opts = ['wild', 'c0', 'c1', 'c2'] + ([] if flat else ['var'])
+            if t == 'p': opts = ['wild', 'st'] + ([] if flat else ['var'])
             if force0 is not None and row == 0 and t != sty and forced:
                 k = forced.pop(0)
                 if k not in opts: raise Unsupported('forced option %s not in %s' % (k, opts))
@@ -186,6 +194,13 @@ def ob_match(r, tier, seed, sty, rows, depth, bind_row=None, flat=False, force0=
                 return c.tpat('PVar', name=mkstr(name), ty=tyv, astptr=ms.NONE()), name, z3.BoolVal(True), [(name, t, sval)]
             if k in ('sa', 'sb', 'sc'):
                 return c.tpat('PPrim', value=c.prim('String', mkstr(k[1])), ty=tyv), 'lit("%s")' % k[1], sval == STRS.index(k[1]), []
+            if k == 'st':
+                SCn = W.tt.find_adt(['common', 'StructConstructor'], 'compiler'); CO = W.tt.find_adt(['common', 'Constructor'], 'compiler'); TI = W.tt.find_adt(['tast', 'TastIdent'], 'compiler')
+                con = Agg(CO.key, CO.vindex('Struct'), [Agg(SCn.key, 0, [Agg(TI.key, 0, [mkstr(STRUCT[0])])])])
+                subs, ds, cs, bs = [], [], [], []
+                for j_, (fn_, st) in enumerate(STRUCT[1]):
+                    p_, d_, cn, b = pat(st, sval.payloads[j_], d - 1, row); subs.append(p_); ds.append('%s: %s' % (fn_, d_)); cs.append(cn); bs += b
+                return c.tpat('PConstr', constructor=con, args=PyVec(subs), ty=tyv), 'P { %s }' % ', '.join(ds), z3.And(*cs), bs
             if k in ('c0', 'c1', 'c2'):
                 idx = int(k[1]); vname, vargs = ENUM[1][idx]
                 EC = W.tt.find_adt(['common', 'EnumConstructor'], 'compiler'); CO = W.tt.find_adt(['common', 'Constructor'], 'compiler'); TI = W.tt.find_adt(['tast', 'TastIdent'], 'compiler')
@@ -221,6 +236,13 @@ def ob_match(r, tier, seed, sty, rows, depth, bind_row=None, flat=False, force0=
             te = genv.fields[[f[0] for f in GTE.variants[0].fields].index('type_env')]
             em = te.fields[[f[0] for f in TEN.variants[0].fields].index('enums')]
             em.keys.append(Agg(TI.key, 0, [mkstr(ENUM[0])])); em.vals.append(edef)
+        if 'p' in json.dumps(sty):
+            SD = W.tt.find_adt(['env', 'StructDef'], 'compiler'); TI = W.tt.find_adt(['tast', 'TastIdent'], 'compiler')
+            GTE = W.tt.find_adt(['env', 'GlobalTypeEnv'], 'compiler'); TEN = W.tt.find_adt(['env', 'TypeEnv'], 'compiler')
+            sdef = Agg(SD.key, 0, [Agg(TI.key, 0, [mkstr(STRUCT[0])]), PyVec([]), PyVec([Agg('tuple', 0, [Agg(TI.key, 0, [mkstr(fn_)]), ty_value(c, ft)]) for fn_, ft in STRUCT[1]])])
+            te = genv.fields[[f[0] for f in GTE.variants[0].fields].index('type_env')]
+            sm = te.fields[[f[0] for f in TEN.variants[0].fields].index('structs')]
+            sm.keys.append(Agg(TI.key, 0, [mkstr(STRUCT[0])])); sm.vals.append(sdef)
         DI = W.tt.find_adt(['diagnostics', 'Diagnostics'], 'diagnostics')
         h = {0: genv, 1: Agg('compiler::env::Gensym', 0, [Cell_(0)]), 2: Agg(DI.key, 0, [PyVec([])]), 3: c.ty('TUnit') if unit_result else c.tyint(), 4: PyVec(arms), 5: mkstr('s')}
         rws = ex.call('make_rows', [Ref(h, 5), Ref(h, 4)])
@@ -284,6 +306,8 @@ def _obligations_matrix():
         Ob('O6.1-boolenum2-2-flat', 'match compiler == first-match, (bool, E) with two-field payloads, 2 flat rows', ob_match, ('quick', 'thorough'), 10, dict(sty=('t', ['b', 'e']), rows=2, depth=2, flat=True, enum2=True)),
         Ob('O6.1-enum-3-unit', 'unit-typed match on enum E: an unmatched variant must fail, not continue', ob_match, ('quick', 'thorough'), 10, dict(sty='e', rows=3, depth=1, unit_result=True)),
         Ob('O6.1-boolint-2-unit', 'unit-typed match on (bool,int32), 2 rows', ob_match, ('quick', 'thorough'), 5, dict(sty=TBI, rows=2, depth=1, unit_result=True)),
+        Ob('O6.1-struct-3', 'match compiler == first-match, struct P { x: int32, y: bool } scrutinee, 3 rows (field patterns)', ob_match, ('quick', 'thorough'), 10, dict(sty='p', rows=3, depth=1)),
+        Ob('O6.1-structint-3', 'match compiler == first-match, (P, int32) scrutinee, 3 rows: rows that do and do not look at the struct', ob_match, ('quick', 'thorough'), 40, dict(sty=('t', ['p', 'i']), rows=3, depth=2, flat=True)),
         Ob('O6.1-str-3', 'match compiler == first-match, string scrutinee, 3 rows over the literals "a" "b" "c"', ob_match, ('quick', 'thorough'), 5, dict(sty='s', rows=3, depth=0)),
         Ob('O6.1-intstr-3-flat', 'match compiler == first-match, (int32,string), 3 flat rows', ob_match, ('quick', 'thorough'), 20, dict(sty=('t', ['i', 's']), rows=3, depth=1, flat=True)),
     ] + [
@@ -298,7 +322,7 @@ def _obligations_matrix():
 META = {
     'level': 'other',
     'explanation': 'Bounded solver-checked obligation over the real match compiler: the MIR of make_rows, compile_rows, move_variable_patterns, branch_variable, compile_{bool,int,tuple,unit}_case(+_impl and closures), compile_expr, Gensym and the derived Clone impls of the current tree is executed on pattern matrices whose shapes are solver decisions and whose literal values are symbolic; the produced core::Expr decision tree is evaluated by a small evaluator over a symbolic scrutinee and z3 decides, per path, whether any scrutinee/literal valuation makes it differ from first-match over the source rows (no arm matches => missing(); an integer matrix may be rejected at compile time only if it is not exhaustive).',
-    'assumptions': ['enum/struct/string columns and the ANF/Go lowering of the tree are outside the claim', 'scrutinee evaluated once: see C09'],
+    'assumptions': ['the ANF/Go lowering of the tree is outside the claim; struct columns: one non-generic struct P { x: int32, y: bool }', 'scrutinee evaluated once: see C09'],
     'trusted_base': ['mirsym MIR interpreter', 'library models listed per obligation', 'z3', 'core evaluator (40 lines) and first-match oracle'],
 }
 
